@@ -257,6 +257,12 @@ def extra_skeletons():
                 T.binop("Or", T.binop("Lt", cmp_field, L), T.binop("GtE", cmp_field, L)), T.unop("Not", T.binop("In", cmp_field, T.lst(L)))]
     for st in (T.Str("x"),):
         out += SC.string_position_terms(st, {"indexof": True, "concat": True})
+    # the SAME comparison twice under and/or (the two slots hold equal values under a uniform assignment, different ones under a staggered one)
+    LS_, LI_ = ("String", STRS[0]), ("Integer", INTS[0])
+    out += [T.binop("Or", T.binop("Eq", s, LS_), T.binop("Eq", s, LS_)), T.binop("And", T.binop("Gt", n, LI_), T.binop("Gt", n, LI_)),
+            T.binop("Or", T.call("contains", s, LS_), T.call("contains", s, LS_)), T.binop("And", T.binop("In", n, T.lst(LI_, LI_)), T.binop("In", n, T.lst(LI_, LI_)))]
+    # a boolean-valued expression compared with a NUMBER (0 / 1 must not be taken for false / true and become SQL structure)
+    out += [T.binop("Eq", T.call("contains", s, ("String", STRS[0])), LI_), T.binop("NotEq", T.binop("Gt", n, LI_), LI_), T.binop("Eq", T.call("startswith", s, LS_), ("Float", FLTS[0]))]
     # long in-lists (bind-variable budgets): 600 uniform literals
     out.append(T.binop("In", n, T.lst(*[("Integer", INTS[0]) for _ in range(600)])))
     out.append(T.binop("In", s, T.lst(*[("String", STRS[0]) for _ in range(600)])))
